@@ -1,0 +1,26 @@
+//go:build verif
+
+package main
+
+// Contracts for the deductive verifier in /verif (govc). Comments only; compiled only with the build tag "verif".
+
+// server.Query (C13, C14): one result per query, in request order, tagged with the query's id or its 1-based
+// position; any failing query fails the whole call (no partial response); never panics for a decodable request
+// (wire type invariant: elements of repeated message fields are non-nil); the index stays usable.
+//@ func [C13,C14,C04] (*server).Query(s, ctx, req) (resp, err)
+//@   requires s != nil && IdxInv(s.idx) && s.idx.mtx.held == 0 && req != nil
+//@   requires wire_elements_nonnil: forall j idx(req.Queries) :: req.Queries[j] != nil
+//@   assumes batch_size: len(req.Queries) < 2147483647
+//@   modifies heap list.List.stamp; heap list.List.clock; heap list.List.members; heap updog.CounterMetric.count; heap updog.LRUCache.curSize
+//@   modifies heap map[uint64]*list.Element; heap dom[uint64]*list.Element; heap updog.lruCacheItem.bm; heap updog.lruCacheItem.size; heap updog.HistogramMetric.obs
+//@   modifies heap sync.Mutex.held
+//@   ensures [C13] no_partial_response: err != nil ==> resp == nil
+//@   ensures [C13] one_result_per_query: err == nil ==> resp != nil && len(resp.Results) == len(req.Queries)
+//@   ensures [C13] ids_in_order: err == nil ==> (forall j idx(resp.Results) :: resp.Results[j] != nil
+//@        && resp.Results[j].QueryId == (req.Queries[j].Id != 0 ? req.Queries[j].Id : j + 1))
+//@   ensures [C14] keeps_answering: IdxInv(s.idx) && s.idx.mtx.held == 0
+//@   loop 1
+//@     invariant IdxInv(s.idx) && s.idx.mtx.held == 0 && 0 <= $i && len(resp.Results) == $i
+//@     invariant arr(resp.Results) == nil || (!(arr(resp.Results) in old($alloc)) && allocated(arr(resp.Results)))
+//@     invariant forall j idx(resp.Results) :: resp.Results[j] != nil && !(resp.Results[j] in old($alloc)) && allocated(resp.Results[j])
+//@        && resp.Results[j].QueryId == (req.Queries[j].Id != 0 ? req.Queries[j].Id : j + 1)
